@@ -5,7 +5,7 @@ From TV Require Import spec.Storage spec.Spec proofs.SpecSums proofs.SpecLemmas 
                        model.DesugarSem model.Exhaust proofs.ExhaustProofs
                        model.DesugarSemGraph proofs.DesugarSemGraphProofs
                        model.Kernel proofs.KernelLocate proofs.KernelEncode proofs.KernelExhaust
-                       proofs.KernelSound proofs.KernelSupport.
+                       proofs.KernelSound proofs.KernelSupport proofs.KernelBucket.
 Import ListNotations.
 Local Open Scope Z_scope.
 
@@ -35,18 +35,18 @@ Definition level_names (cfg : kcfg) (tgt : list string) : list string :=
       target indexes are distinct;
     - scoping: no index is iterated twice on a path, and a compressed layer of a tensor is iterated
       after all earlier layers of that tensor;
-    - output discipline ([shape_okb] = what the generator accepts): layers are appended in order by
-      the node iterating their index, or the remaining layers are all dense (bucket). *)
+    - output discipline ([wellb], what the generator accepts): layers are appended in order by
+      the node iterating their index, or the remaining layers are all dense and are filled through
+      a bucket, below which output nodes iterate distinct remaining output indexes, contractions
+      iterate other indexes and every terminal sits below all of them. *)
 Definition graph_okb (cfg : kcfg) (g : graph Z) (tgt : list string) : bool :=
-  leaves_okb cfg && cfg_okb cfg && scopedb [] g && shape_okb cfg g 0
+  leaves_okb cfg && cfg_okb cfg && scopedb [] g && wellb cfg g 0
   && nodupb (k_oidx cfg) && nodupb tgt
   && Nat.eqb (List.length tgt) (List.length (k_oord cfg))
   && list_eqb String.eqb (k_oidx cfg) (level_names cfg tgt).
 
-(** the fragment on which [G_computes_denotation] is proved: the output layers 0, 1, ... are
-    appended in this order by the outermost nodes; below them no node carries an output layer
-    (contractions, sum nodes and terminals only).  Excluded: dense output layers filled through a
-    bucket because a contraction or a later layer is iterated outside them. *)
+(** graphs whose output layers are all appended by the outermost nodes (no bucket with dense
+    layers); only reported by the correspondence, the theorems do not need it *)
 Definition in_fragment (cfg : kcfg) (g : graph Z) : bool := chainb cfg g 0.
 
 Definition in_box (cfg : kcfg) (tgt : list string) (c : list Z) : Prop :=
@@ -57,7 +57,7 @@ Proof. apply list_eqb_eq. intros x y H. now apply String.eqb_eq. Qed.
 
 Lemma graph_okb_parts cfg g tgt :
   graph_okb cfg g tgt = true ->
-  leaves_okb cfg = true /\ cfg_ok cfg /\ scopedb [] g = true /\ shape_okb cfg g 0 = true
+  leaves_okb cfg = true /\ cfg_ok cfg /\ scopedb [] g = true /\ wellb cfg g 0 = true
   /\ NoDup (k_oidx cfg) /\ NoDup tgt /\ List.length tgt = List.length (k_oord cfg)
   /\ k_oidx cfg = level_names cfg tgt.
 Proof.
@@ -70,36 +70,27 @@ Qed.
 
 (** * the theorems *)
 
-(** G computes the loop-nest denotation of the graph (proved on [in_fragment]) *)
-Theorem G_computes_denotation_partial (cfg : kcfg) (g : graph Z) (tgt : list string) :
-  k_leaves cfg = graph_leaves g ->
-  graph_okb cfg g tgt = true -> in_fragment cfg g = true ->
-  forall c, in_box cfg tgt c ->
-    abs_tensor (O := ZOps) (G_out cfg g) c
-    = gdenote (O := ZOps) (envE cfg) (k_sizes cfg) (ordsE cfg) g (bind tgt c).
-Proof.
-  intros El Hok Hf c Hc. destruct (graph_okb_parts _ _ _ Hok) as (LOK & CFG & Hs & _ & ND & NDt & Lt & Eo).
-  apply (G_computes cfg LOK CFG g tgt c); auto. rewrite El. apply incl_refl.
-Qed.
-
-(** the statement at full strength: every graph the generator accepts *)
-Definition G_computes_denotation_full : Prop :=
-  forall (cfg : kcfg) (g : graph Z) (tgt : list string),
+(** G computes the loop-nest denotation of the graph *)
+Theorem G_computes_denotation (cfg : kcfg) (g : graph Z) (tgt : list string) :
   k_leaves cfg = graph_leaves g ->
   graph_okb cfg g tgt = true ->
   forall c, in_box cfg tgt c ->
     abs_tensor (O := ZOps) (G_out cfg g) c
     = gdenote (O := ZOps) (envE cfg) (k_sizes cfg) (ordsE cfg) g (bind tgt c).
+Proof.
+  intros El Hok c Hc. destruct (graph_okb_parts _ _ _ Hok) as (LOK & CFG & Hs & Hw & ND & NDt & Lt & Eo).
+  apply (G_computes_gen cfg LOK CFG g tgt c); auto. rewrite El. apply incl_refl.
+Qed.
 
 (** with the graph validator of C01: G computes the specification of the assignment *)
-Theorem G_computes_spec_partial (cfg : kcfg) (g : graph Z) (a : assignment Z) :
+Theorem G_computes_spec (cfg : kcfg) (g : graph Z) (a : assignment Z) :
   k_leaves cfg = graph_leaves g ->
-  graph_okb cfg g (tgt_idx a) = true -> in_fragment cfg g = true ->
+  graph_okb cfg g (tgt_idx a) = true ->
   graph_ok_spec (ordsE cfg) Z.eqb a g = true ->
   forall c, in_box cfg (tgt_idx a) c ->
     abs_tensor (O := ZOps) (G_out cfg g) c = spec (O := ZOps) a (envE cfg) (k_sizes cfg) c.
 Proof.
-  intros El Hok Hf Hg c Hc. rewrite (G_computes_denotation_partial cfg g (tgt_idx a) El Hok Hf c Hc).
+  intros El Hok Hg c Hc. rewrite (G_computes_denotation cfg g (tgt_idx a) El Hok c Hc).
   apply (graph_spec_validator_sound ZOps ZOps_ok (envE cfg) (k_sizes cfg) (ordsE cfg) Z.eqb); [|exact Hg].
   intros x y H. now apply Z.eqb_eq.
 Qed.
@@ -109,10 +100,10 @@ Theorem G_output_wf (cfg : kcfg) (g : graph Z) (tgt : list string) :
   k_leaves cfg = graph_leaves g -> graph_okb cfg g tgt = true ->
   wf_tensorb true (G_out cfg g) = true /\ wf_tensorb false (G_out cfg g) = true.
 Proof.
-  intros El Hok. destruct (graph_okb_parts _ _ _ Hok) as (LOK & CFG & _ & Hsh & _).
+  intros El Hok. destruct (graph_okb_parts _ _ _ Hok) as (LOK & CFG & _ & Hw & _).
   assert (wf_tensorb true (G_out cfg g) = true) as W.
   { unfold G_out. apply encode_wf; [exact CFG|].
-    apply (Ga_twf cfg LOK CFG g 0 [] (fun _ => 0) Hsh). rewrite El. apply incl_refl. }
+    apply (Ga_twf cfg LOK CFG g 0 [] (fun _ => 0) (wellb_shape cfg LOK CFG g 0 Hw)). rewrite El. apply incl_refl. }
   split; [exact W|]. unfold wf_tensorb in *. apply andb_true_iff in W. destruct W as [W1 W2].
   rewrite W1. cbn [andb]. destruct (wf_levelsb _ 1); [|discriminate]. lia.
 Qed.
@@ -123,23 +114,7 @@ Definition support_okb (cfg : kcfg) (g : graph Z) : bool := leaves_extrab cfg &&
 
 (** no phantom coordinates: a prefix stored by a compressed level of the output has structural
     support in the graph, for some in-range completion of the remaining output levels *)
-Theorem G_no_phantoms_partial (cfg : kcfg) (g : graph Z) (tgt : list string) :
-  k_leaves cfg = graph_leaves g ->
-  graph_okb cfg g tgt = true -> support_okb cfg g = true -> in_fragment cfg g = true ->
-  forall (l : nat) (p : list Z),
-    nth_error (k_omodes cfg) l = Some MCompressed ->
-    In p (stored_prefixes (G_out cfg g) (S l)) ->
-    exists rest, Forall2 (fun c x => 0 <= c < k_sizes cfg x) (p ++ rest) (k_oidx cfg)
-                 /\ gsupp cfg g (bind_from (fun _ => 0) (k_oidx cfg) (p ++ rest)) = true.
-Proof.
-  intros El Hok Hsup Hf l p Hm Hin.
-  destruct (graph_okb_parts _ _ _ Hok) as (LOK & CFG & Hs & _ & ND & NDt & Lt & Eo).
-  unfold support_okb in Hsup. apply andb_true_iff in Hsup. destruct Hsup as [LEX Hcl].
-  apply (G_no_phantoms_level cfg LOK LEX CFG g l p); auto. rewrite El. apply incl_refl.
-Qed.
-
-Definition G_no_phantoms_full : Prop :=
-  forall (cfg : kcfg) (g : graph Z) (tgt : list string),
+Theorem G_no_phantoms (cfg : kcfg) (g : graph Z) (tgt : list string) :
   k_leaves cfg = graph_leaves g ->
   graph_okb cfg g tgt = true -> support_okb cfg g = true ->
   forall (l : nat) (p : list Z),
@@ -147,6 +122,12 @@ Definition G_no_phantoms_full : Prop :=
     In p (stored_prefixes (G_out cfg g) (S l)) ->
     exists rest, Forall2 (fun c x => 0 <= c < k_sizes cfg x) (p ++ rest) (k_oidx cfg)
                  /\ gsupp cfg g (bind_from (fun _ => 0) (k_oidx cfg) (p ++ rest)) = true.
+Proof.
+  intros El Hok Hsup l p Hm Hin.
+  destruct (graph_okb_parts _ _ _ Hok) as (LOK & CFG & Hs & Hw & ND & NDt & Lt & Eo).
+  unfold support_okb in Hsup. apply andb_true_iff in Hsup. destruct Hsup as [LEX Hcl].
+  apply (G_no_phantoms_level_gen cfg LOK LEX CFG g l p); auto. rewrite El. apply incl_refl.
+Qed.
 
 (** evaluated by the correspondence on every swept case: do the side conditions of the theorems
     hold for the real graph / inputs, and is the graph in the proved fragment? *)
